@@ -26,7 +26,7 @@
     flux = rate at the pools).  Every reaction that touches a labelled compound is mapped. *)
 From Coq Require Import List ZArith NArith Bool Arith Permutation Ring.
 From MxlBase Require Import ListX.
-From Label Require Import LModel Iso Linear GenLabelFacts Algebra IsoProofs IsoPropsZ LinearProofs LinearProps LinearCoef.
+From Label Require Import LModel Iso Linear LinSession GenLabelFacts Exec Algebra IsoProofs IsoPropsZ LinearProofs LinearProps LinearCoef LinSessionProofs.
 Import ListNotations.
 
 Theorem C16_facts_pinned :
@@ -299,3 +299,64 @@ Example C16_homodimer_nonvacuous :
                     deriv Z 0%Z 1%Z Z.add Z.mul Z.opp idZ idZ hd2_envL (concat lrs) (LPos 2%N 1%Z) = 1%Z).
 Proof. exact enrichment_homodimer_nonvacuous. Qed.
 Print Assumptions C16_homodimer_nonvacuous.
+
+From Coq Require Import QArith.
+(** ---- the LinearLabelMapper OBJECT over its life (closing pass for seeded C16-9; model LinSession.v) ------------------
+
+    The property compares the label model with the isotopomer model "built from the same label counts and atom maps".  The
+    counts and maps are PUBLIC, MUTABLE fields of the mapper: the label model of a call must be the one of the values the
+    fields hold AT THAT CALL, whatever was built or edited before.  [gen_lin_cache] is regenerated from the class on every
+    run (dataclass fields, methods, what build_model reads from self). *)
+Theorem C16_lin_cache_pinned : gen_lin_cache = CacheNone.
+Proof. vm_compute. reflexivity. Qed.
+Print Assumptions C16_lin_cache_pinned.
+
+(** the tree: for EVERY history of operations on one mapper (in-place edits of a map / a label count, new dicts, builds for any
+    steady states and initial labels, in any order and number, starting from ANY mapper state) every build_model call returns
+    exactly what a fresh mapper holding the current field values returns -- so every statement above about [lin_rxns] /
+    [build_linear] applies to every call with the CURRENT counts and maps -- and no call writes the two dicts *)
+Theorem C16_every_build_reads_the_current_maps :
+  forall (per : per_rxn_t) (rxns : list brxn) (ops : list lin_op) (mp : mapper),
+    fst (lin_session CacheNone per rxns mp ops) = fresh_builds per rxns (mp_lv mp) (mp_maps mp) ops /\
+    (mp_lv (snd (lin_session CacheNone per rxns mp ops)), mp_maps (snd (lin_session CacheNone per rxns mp ops)))
+    = fields_after (mp_lv mp) (mp_maps mp) ops.
+Proof. exact session_none_fresh. Qed.
+Print Assumptions C16_every_build_reads_the_current_maps.
+
+(** build_model = (variables, initial labels, parameters: current counts + the call's arguments) + (per-position reactions:
+    counts, maps and network only) -- the split the seeded change C16-9 caches along; sound as an identity *)
+Theorem C16_build_splits_into_transfers_and_state :
+  forall (per : per_rxn_t) (lv : label_vars) (lmaps : label_maps) (a : build_args) (rxns : list brxn),
+    build_linear_with per lv lmaps (ba_init a) (ba_concs a) (ba_fluxes a) (ba_ext a) rxns
+    = build_linear_from lv a (lin_transfers per lv lmaps rxns).
+Proof. exact build_linear_split. Qed.
+Print Assumptions C16_build_splits_into_transfers_and_state.
+
+(** regression model of the seeded shape (transfers cached on the mapper, validated against a snapshot that holds the same dict
+    objects): what still holds -- edits made BEFORE the first build and any number of builds after it (other steady states,
+    other initial labels: the documented use of the cache) answer like fresh mappers.
+    Full statement (false for this shape, see the witness below):
+      forall per rxns ops lv lmaps, fst (lin_session CacheAliased per rxns (new_mapper lv lmaps) ops) = fresh_builds per rxns lv lmaps ops *)
+Theorem C16_aliased_cache_unedited_partial :
+  forall (per : per_rxn_t) (rxns : list brxn) (edits builds : list lin_op) (mp : mapper),
+    mp_tr mp = None ->
+    forallb (fun op => negb (is_build op)) edits = true -> forallb is_build builds = true ->
+    fst (lin_session CacheAliased per rxns mp (edits ++ builds))
+    = fresh_builds per rxns (mp_lv mp) (mp_maps mp) (edits ++ builds).
+Proof. exact aliased_unedited_fresh. Qed.
+Print Assumptions C16_aliased_cache_unedited_partial.
+
+(** ... and the witness: -> A(3) -> B(3) -> with identity maps, pools and fluxes 1; build, `label_maps[v41] = [1, 2, 0]` in
+    place, build again.  With the aliased cache the second call returns the FIRST model again; the fresh build differs; at the
+    state "enrichment 1 at A's position 0" the current map feeds B's position 2 at rate 1 (the isotopomer model's rate, see
+    C16_direction_prefix_refuted's last conjunct for the same reaction and map), the stale model feeds position 0 instead.
+    Also the non-vacuity witness of the two session theorems: both builds succeed and differ in the fresh semantics. *)
+Theorem C16_aliased_cache_in_place_edit_refuted :
+  exists (lin1 lin2 fresh2 : lmodel Q),
+    fst (lin_session CacheAliased (lin_rxns DirDocumented) sw_rxns (new_mapper sw_lv sw_maps) sw_ops) = [Ok lin1; Ok lin2] /\
+    fresh_builds (lin_rxns DirDocumented) sw_rxns sw_lv sw_maps sw_ops = [Ok lin1; Ok fresh2] /\
+    lin2 = lin1 /\ lm_rxns lin2 <> lm_rxns fresh2 /\
+    rhs_exec (fun q => q) fresh2 sw_state = Some [0; 1; 1; 0; 0; 1]%Q /\
+    rhs_exec (fun q => q) lin2 sw_state = Some [0; 1; 1; 1; 0; 0]%Q.
+Proof. exact aliased_in_place_refuted. Qed.
+Print Assumptions C16_aliased_cache_in_place_edit_refuted.
